@@ -91,6 +91,7 @@ func (c tcfg) String() string {
 type tcase struct {
 	Cfg     tcfg
 	Entries []entry
+	Reseek  bool // shared-prefix family: probes are prefixProbes and one long-lived iterator per direction is re-positioned
 }
 
 func universe() []ikey {
@@ -201,7 +202,7 @@ func describeWant(want []entry) string {
 type failure struct{ Sig, Desc string }
 
 // check runs every query against vt and returns every distinct failure (a known defect must not mask others).
-func (c *checker) check(vt *lsm.VerifTable, tc tcase, phase string) (fails []failure) {
+func (c *checker) check(vt *lsm.VerifTable, tc tcase, phase string, probes []ikey) (fails []failure) {
 	es := tc.Entries
 	blocks := vt.NumBlocks()
 	bclass := "1"
@@ -256,7 +257,7 @@ func (c *checker) check(vt *lsm.VerifTable, tc tcase, phase string) (fails []fai
 			c.p.Mark("outcomes", "search-hit")
 		}
 	}
-	for _, pk := range c.probes {
+	for _, pk := range probes {
 		pb := pk.bytes()
 		lo := 0 // first index with entry >= probe
 		for lo < len(es) && cmpKey(es[lo].K, pk) < 0 {
@@ -339,6 +340,173 @@ func (c *checker) check(vt *lsm.VerifTable, tc tcase, phase string) (fails []fai
 	return fails
 }
 
+// ---------------------------------------------------------------------------------------
+// shared-prefix family: long common key prefixes, tiny blocks (2..4 entries per block, >= 3 blocks), a prefix change
+// that falls on a block boundary in some tables and inside a block in others, two versions per user key; queried
+// through fresh iterators (check) and through ONE long-lived iterator per direction that is re-positioned from every
+// prior position (reseek), which is how merge / level iterators use table iterators.
+
+var prefixUsers = []string{"user/000038", "user/000039", "user/000040", "user/000041", "user/000042"}
+
+func prefixUniverse() []ikey {
+	var out []ikey
+	for _, u := range prefixUsers {
+		for _, v := range []uint64{3, 1} {
+			out = append(out, ikey{kv.CFDefault, u, v})
+		}
+	}
+	sortKeys(out)
+	return out
+}
+
+// prefixProbes: every stored version, versions around / between them, user keys before, between and after.
+func prefixProbes() []ikey {
+	var out []ikey
+	users := append([]string{"user/000037", "user/000039!", "user/00004", "user/000043"}, prefixUsers...)
+	for _, u := range users {
+		for _, v := range []uint64{1<<64 - 1, 4, 3, 2, 1, 0} {
+			out = append(out, ikey{kv.CFDefault, u, v})
+		}
+	}
+	sortKeys(out)
+	return out
+}
+
+// reseek re-positions one long-lived iterator per direction: for every prior position (just created, Rewind, reached
+// by Next at every entry and past the end, reached by Seek to every probe) and every probe, Seek(probe) must land on
+// the first entry >= probe (last <= probe in reverse) and Next must then return the rest in order.
+func (c *checker) reseek(vt *lsm.VerifTable, tc tcase, phase string, probes []ikey) (fails []failure) {
+	es := tc.Entries
+	base := vt.BlockBaseKeys()
+	blockOf := func(k []byte) int { // index of the block holding stored key k
+		b := 0
+		for i, bk := range base {
+			if utils.CompareKeys(bk, k) <= 0 {
+				b = i
+			}
+		}
+		return b
+	}
+	seen := map[string]bool{}
+	fail := func(sig, detail string) {
+		sig = fmt.Sprintf("%s phase=%s", sig, phase)
+		if !seen[sig] {
+			seen[sig] = true
+			fails = append(fails, failure{sig, fmt.Sprintf("%s; table %s of %s in %d blocks (block base keys %s); %s", tc.Cfg, phase, describeWant(es), len(base), describeKeys(base), detail)})
+		}
+	}
+	type prior struct {
+		name string
+		do   func(it *lsm.VerifIter) (*lsm.VerifEntry, error)
+	}
+	for _, asc := range []bool{true, false} {
+		dir := "fwd"
+		if !asc {
+			dir = "rev"
+		}
+		priors := []prior{{"fresh", nil}, {"rewind", func(it *lsm.VerifIter) (*lsm.VerifEntry, error) { return it.Rewind() }}}
+		for j := 0; j <= len(es); j++ {
+			j := j
+			priors = append(priors, prior{fmt.Sprintf("next*%d", j), func(it *lsm.VerifIter) (cur *lsm.VerifEntry, err error) {
+				cur, err = it.Rewind()
+				for n := 0; n < j && err == nil && cur != nil; n++ {
+					cur, err = it.Next()
+				}
+				return
+			}})
+		}
+		for _, pp := range probes {
+			pb := pp.bytes()
+			priors = append(priors, prior{"seek(" + pp.String() + ")", func(it *lsm.VerifIter) (*lsm.VerifEntry, error) { return it.Seek(pb) }})
+		}
+		it := vt.NewIter(asc, tc.Cfg.Prefetch)
+		for _, pr := range priors {
+			for _, pk := range probes {
+				if pr.do == nil { // "fresh": a new iterator for this probe
+					it.Close()
+					it = vt.NewIter(asc, tc.Cfg.Prefetch)
+				}
+				var want []entry
+				lo := 0
+				for lo < len(es) && cmpKey(es[lo].K, pk) < 0 {
+					lo++
+				}
+				hi := lo
+				if hi < len(es) && cmpKey(es[hi].K, pk) == 0 {
+					hi++
+				}
+				if asc {
+					want = es[lo:]
+				} else {
+					want = reversed(es[:hi])
+				}
+				var at *lsm.VerifEntry
+				var err error
+				pclass := "none"
+				if pr.do != nil {
+					if at, err = pr.do(it); err != nil {
+						fail(fmt.Sprintf("reseek-%s prior-error", dir), pr.name+": "+err.Error())
+						continue
+					}
+					pclass = "exhausted"
+				}
+				c.p.Add("queries", 1)
+				c.p.Add("reseeks", 1)
+				var got []lsm.VerifEntry
+				cur, err := it.Seek(pk.bytes())
+				for n := 0; err == nil && cur != nil && n <= len(es)+1; n++ {
+					got = append(got, *cur)
+					cur, err = it.Next()
+				}
+				// classification: where the iterator was, where the answer lies
+				target := "none"
+				if len(want) > 0 {
+					tb := blockOf(want[0].K.bytes())
+					target = "in-block"
+					for _, bk := range base {
+						if string(bk) == string(want[0].K.bytes()) {
+							target = "block-start"
+						}
+					}
+					if at != nil {
+						pclass = "same-block"
+						if blockOf(at.Key) != tb {
+							pclass = "other-block"
+						}
+					}
+				} else if at != nil {
+					pclass = "positioned"
+				}
+				how := strings.SplitN(strings.SplitN(pr.name, "(", 2)[0], "*", 2)[0]
+				probeClass := "absent"
+				if hi > lo {
+					probeClass = "stored"
+				}
+				switch {
+				case err != nil:
+					fail(fmt.Sprintf("reseek-%s prior=%s:%s probe=%s target=%s got=error", dir, how, pclass, probeClass, target), fmt.Sprintf("after %s, Seek(%s): %v", pr.name, pk, err))
+				case diffSeq(got, want) != "":
+					fail(fmt.Sprintf("reseek-%s prior=%s:%s probe=%s target=%s got=%s", dir, how, pclass, probeClass, target, diffSeq(got, want)),
+						fmt.Sprintf("one %s iterator: after %s, Seek(%s)+Next returned %s, want %s", dir, pr.name, pk, describe(got), describeWant(want)))
+				default:
+					c.p.Mark("outcomes", fmt.Sprintf("reseek-%s:%s:%s:%s", dir, how, pclass, target))
+				}
+			}
+		}
+		it.Close()
+	}
+	return fails
+}
+
+func describeKeys(ks [][]byte) string {
+	var s []string
+	for _, k := range ks {
+		cf, u, v := kv.SplitInternalKey(k)
+		s = append(s, ikey{cf, string(u), v}.String())
+	}
+	return "[" + strings.Join(s, " ") + "]"
+}
+
 func reversed(es []entry) []entry {
 	out := make([]entry, len(es))
 	for i, e := range es {
@@ -370,13 +538,23 @@ func (c *checker) run(tc tcase) (fails []failure) {
 	if tc.Cfg.Bloom > 0 {
 		c.p.Add("tables_with_bloom", 1)
 	}
-	fails = c.check(vt, tc, "built")
+	probes := c.probes
+	if tc.Reseek {
+		probes = prefixProbes()
+	}
+	fails = c.check(vt, tc, "built", probes)
+	if tc.Reseek {
+		fails = append(fails, c.reseek(vt, tc, "built", probes)...)
+	}
 	vt.Close()
 	vt2, err := lsm.VerifOpenTable(c.dir, fid, opts)
 	if err != nil {
 		return append(fails, failure{"reopen-error " + normErr(err), fmt.Sprintf("%s; reopening %s: %v", tc.Cfg, describeWant(tc.Entries), err)})
 	}
-	fails = append(fails, c.check(vt2, tc, "reopened")...)
+	fails = append(fails, c.check(vt2, tc, "reopened", probes)...)
+	if tc.Reseek {
+		fails = append(fails, c.reseek(vt2, tc, "reopened", probes)...)
+	}
 	vt2.Close()
 	return fails
 }
@@ -440,6 +618,12 @@ func main() {
 		}
 		cfgs = append(cfgs, tcfg{Block: 128, Bloom: 0.01, Cache: 8, upTo: 3}, tcfg{Block: 64, Prefetch: 2, upTo: 3}, tcfg{Block: 64, Cache: 8, Prefetch: 2, upTo: 3},
 			tcfg{Block: 4096, Bloom: 0.01, Cache: 8, upTo: 3})
+	}
+	// shared-prefix family (see reseek): block sizes that hold 2 / 3 / 4 of its entries
+	pfCfgs := []tcfg{{Block: 96}, {Block: 104, Bloom: 0.01}, {Block: 112}}
+	pfMin := r.Pick(8, 6)
+	if r.Thorough() {
+		pfCfgs = append(pfCfgs, tcfg{Block: 96, Bloom: 0.01, Cache: 8}, tcfg{Block: 104, Prefetch: 2})
 	}
 	vclasses := func(block int) []int { return []int{0, 1, block + 1} }
 	metas := []byte{0, kv.BitDelete, 0x40}
@@ -521,8 +705,52 @@ func main() {
 				return
 			}
 		}
+		// shared-prefix family: every subset (of at least pfMin keys) of the 10-key universe x block sizes that hold 2, 3 or 4
+		// of these entries x value class {1 byte for all, one block-filling value on every position in turn is left to the
+		// classic family}
+		puni := prefixUniverse()
+		for _, cfg := range pfCfgs {
+			for k := pfMin; k <= len(puni); k++ {
+				stop := false
+				subsets(len(puni), k, func(idx []int) {
+					item++
+					if stop || !sh.Owns(item) {
+						return
+					}
+					if r.Expired() {
+						p.TimedOut, stop = true, true
+						return
+					}
+					tc := tcase{Cfg: cfg, Reseek: true}
+					for i, ui := range idx {
+						tc.Entries = append(tc.Entries, entry{K: puni[ui], VLen: 1, Meta: metas[i%len(metas)], Exp: exps[i%len(exps)]})
+					}
+					p.Add("prefix_tables", 1)
+					fails := c.run(tc)
+					if len(fails) > 0 {
+						if key := fmt.Sprint(sigs(fails)); !confirmed[key] {
+							confirmed[key] = true
+							if again := c.run(tc); fmt.Sprint(sigs(again)) != key {
+								vr.Fatalf("non-reproducible failure: %q then %q for %s %s", sigs(fails), sigs(again), cfg, describeWant(tc.Entries))
+							}
+						}
+						rp, _ := json.Marshal(tc)
+						for _, f := range fails {
+							p.Viol(f.Sig, f.Desc, string(rp))
+						}
+					}
+				})
+				if stop {
+					return
+				}
+			}
+			p.Add("configs_done", 1)
+		}
 	})
 	var cfgNames []string
+	for _, c := range pfCfgs {
+		cfgNames = append(cfgNames, fmt.Sprintf("shared-prefix family: %s, every subset of >=%d of the 10 keys {user/000038..user/000042}x{3,1}, %d probes, fresh + long-lived re-positioned iterators", c, pfMin, len(prefixProbes())))
+	}
 	for _, c := range cfgs {
 		full := c.fullTo
 		if full == 0 {
@@ -532,19 +760,20 @@ func main() {
 	}
 	outcomes := total.Card("outcomes")
 	r.RequireOutcomes(outcomes, 8)
-	if total.Counters["max_blocks"] < 2 || total.Counters["tables_with_bloom"] == 0 {
+	if total.Counters["max_blocks"] < 3 || total.Counters["tables_with_bloom"] == 0 || total.Counters["reseeks"] == 0 {
 		vr.Fatalf("vacuous: max_blocks=%d tables_with_bloom=%d", total.Counters["max_blocks"], total.Counters["tables_with_bloom"])
 	}
 	r.Finish(vr.Coverage{
 		Level:       "exploration",
 		Evaluations: total.Counters["queries"],
 		Distinct:    total.Counters["tables"],
-		Rule:        "every subset (size 1..N, N per configuration) of the 17-key universe {a,aa,a\\x00,a\\xff,b}x{1,2,max} (+ one lock-cf and one write-cf key), every assignment of a value-size class {0,1,blockSize+1} to every entry, for every table configuration; each table is built by the real builder, then: full forward/reverse iteration, Search of every stored key, and for every probe (universe + between/outside keys) Search soundness, forward Seek+Next = suffix from first >= probe, reverse Seek+Next = reversed prefix up to last <= probe; repeated after close + reopen. distinct = tables built; evaluations = queries issued",
+		Rule:        "every subset (size 1..N, N per configuration) of the 17-key universe {a,aa,a\\x00,a\\xff,b}x{1,2,max} (+ one lock-cf and one write-cf key), every assignment of a value-size class {0,1,blockSize+1} to every entry, for every table configuration; each table is built by the real builder, then: full forward/reverse iteration, Search of every stored key, and for every probe (universe + between/outside keys) Search soundness, forward Seek+Next = suffix from first >= probe, reverse Seek+Next = reversed prefix up to last <= probe; repeated after close + reopen. Shared-prefix family: every subset (>= N keys) of 10 keys with an 11-byte common-prefix alphabet and two versions each, in blocks of 2/3/4 entries (>= 3 blocks), with the same queries on fresh iterators plus ONE long-lived iterator per direction re-positioned by Seek(probe) from every prior position (new, Rewind, Next to every entry and past the end, Seek to every probe) for every probe (stored versions, versions between/around, user keys before/between/after). distinct = tables built; evaluations = queries issued",
 		Samples:     total.SamplesAny(),
 		Exhaustive:  !total.TimedOut,
 		Outcomes:    outcomes,
 		Bounds:      map[string]any{"configs": cfgNames, "universe": len(uni), "probes": len(prb), "value_classes": "0,1,blockSize+1", "metas": metas, "expires": exps},
-		Extra:       map[string]any{"tables_built": total.Counters["tables"], "tables_with_bloom": total.Counters["tables_with_bloom"], "max_blocks_in_a_table": total.Counters["max_blocks"]},
+		Extra: map[string]any{"tables_built": total.Counters["tables"], "tables_with_bloom": total.Counters["tables_with_bloom"], "max_blocks_in_a_table": total.Counters["max_blocks"],
+			"shared_prefix_tables": total.Counters["prefix_tables"], "reseeks_on_long_lived_iterators": total.Counters["reseeks"]},
 		Assumptions: []string{"tables are opened through openTable with a minimal levelManager (options + cache only); level handlers are not involved",
 			"Search is called with no version floor (maxVs=0), so versions start at 1",
 			"Search of an internal key that is not stored may legitimately return an older version of the same user key; only foreign entries are violations there"},
